@@ -897,6 +897,7 @@ STREAMS = [
     # a literal whose content looks like protocol (a blank line, a status line, a size line): only its announced size says where it ends
     [b"{%d}\r\n" % len(_PROTO_LIKE) + _PROTO_LIKE + b"\r\nOK\r\n"],
     [b'BYE "too many connections"\r\n', b"OK\r\n"],    # the BYE line is consumed like any other: what follows it is not BYE again
+    [b'"' + b"n" * 300 + b'"\r\nOK\r\n'],                # RFC 5804: names of up to 512 octets must work
 ]
 
 
@@ -918,6 +919,7 @@ EXPECTED = [
     [(b"OK", None, b"# \xc3\xa9\xc3\xa0\r\n")],
     [(b"OK", None, _PROTO_LIKE)],
     [("raise", "Error"), (b"OK", None, b"")],
+    [(b"OK", None, b'"' + b"n" * 300 + b'"\r\n')],
 ]
 
 
@@ -1059,8 +1061,9 @@ def reader_eval(ctx, R, thorough=False):
         if got_ref != want:
             return ("bad", "the reply stream %r, delivered in one segment, is read as %r; it says %r" % (whole, ref, want))
         L = len(whole)
-        step = 1 if (thorough or L <= 24) else 2
-        schedules = [[c] for c in range(1, L, step)] + [list(range(1, L))] + [[c, c + 1] for c in range(1, L - 1, 3)] + [[c, L - 2] for c in range(2, L - 3, 5)]
+        step = 1 if (thorough or L <= 24) else (2 if L <= 80 else 37)
+        schedules = [[c] for c in range(1, L, step)] + [list(range(1, L))] + [[c, c + 1] for c in range(1, L - 1, 3 if L <= 80 else 41)] + [
+            [c, L - 2] for c in range(2, L - 3, 5 if L <= 80 else 43)]
         # the stream stops short (the peer went silent): the reply that is cut must end in Error, never in a result
         for short in (L - 1, L - 3):
             if short > 0:
